@@ -1203,9 +1203,12 @@ class Unit:
                     raise ExtractError("%s: //@spec on a non-fn item" % label)
                 at = toks[parts["end"]].start
                 ed.insert(at, "\n" + text + "\n", "A", "contract")
-                if self.canary and parts["body"] is not None:
+                no_iso = any(n == "attr" and "loop_isolation(false)" in a for (n, a, _t) in blk.subs)
+                if self.canary and parts["body"] is not None and not no_iso:
                     # vacuity canary: the precondition (and context) must not be contradictory,
                     # so `false` must NOT be provable at the start of the body
+                    # (functions verified without loop isolation get the canary in their loops only:
+                    # a failed assertion is assumed afterwards within the same query)
                     ed.insert(toks[parts["body"][0]].end, "\nproof { assert(false); } // vacuity canary\n", "A", "canary")
                 n_ann += 1
             elif name == "bodystart":
